@@ -483,6 +483,10 @@ func (x *Exec) checkRegionAssignable(st *State, r Region, pos, callee string) {
 		}
 		if r.IsElem {
 			if a.ElemKey != r.ElemKey {
+				if a.ElemKey == "uint8" && a.Lo.S == "" {
+					// a whole byte array (a tensor's raw storage) licenses writes through its typed views
+					alts = append(alts, Eq(a.Arr, r.Arr))
+				}
 				continue
 			}
 			c := Eq(a.Arr, r.Arr)
